@@ -18,9 +18,9 @@ RULE = (
     'positions), random programs to depth 6/length 12; distinct = distinct (nesting signature of classes+argument kinds, exception position); '
     'non-trivial iff at least one publicly visible field changed inside the program (so a restore is observable)'
 )
-REQUIRED = ["enter_matches_model", "exit_matches_model", "end_equals_defaults", "inner_value_visible"]
+REQUIRED = ["enter_matches_model", "exit_matches_model", "end_equals_defaults", "inner_value_visible", "reentered_object_end_equals_defaults", "reentered_object_inner_value_visible"]
 ASSUMPTIONS = [
-    "blocks are written `with cls(args):` (object constructed at entry); re-entered pre-constructed objects are counted as informational only",
+    "blocks are written `with cls(args):` (object constructed at entry); for ONE pre-constructed object entered while already active, the value visible inside the innermost entry and the defaults after the outermost exit are verdicts, the value visible between an inner exit and the outer exit is not (the object saves a single previous value)",
     "visible state = on()/value()/value(dtype)/num_probe_vectors() of every exported class, sampled after every enter/exit event",
 ]
 ANCHOR_FILES = ["gpytorch/settings.py", "gpytorch/beta_features.py"]
@@ -460,11 +460,20 @@ def run_case(case, ctx):
         for depth in (2, 3):
             # one pre-constructed object entered while it is already active: what is visible INSIDE is informational only
             # (the object saves one previous value), but once every block has exited the defaults must be back
+            want = {k: v for k, v in model_writes(name, kw).items()}
+
+            def inner_ok(where):
+                vis = snapshot()
+                bad = [k for k, v in want.items() if k in vis and vis[k] != v]
+                ctx.expect("reentered_object_inner_value_visible", not bad, f"{where} of one {name}({_enc(kw)}) object: " + ", ".join(f"{k}={vis[k]!r} expected {want[k]!r}" for k in bad), fields=bad)
+
             with obj:
+                inner_ok("depth 1")
                 with obj:
+                    inner_ok("depth 2 (re-entered)")
                     if depth == 3:
                         with obj:
-                            pass
+                            inner_ok("depth 3 (re-entered twice)")
             end = snapshot()
             bad = [k for k in end if end[k] != _S["defaults"][k]]
             ctx.expect("reentered_object_end_equals_defaults", not bad, f"after {depth} nested entries of one {name} object: " + "; ".join(f"{k}={end[k]!r} default={_S['defaults'][k]!r}" for k in bad[:4]), fields=bad, owners=sorted({_owner(k) for k in bad}))
